@@ -883,6 +883,40 @@ for cls, f in (("Source", "nodes/source.py"), ("Machine", "nodes/machine.py"), (
     frag("%s_push_item_shape" % cls, f, lambda t, c=cls: push_shape(t, c), "true", kind="const")
 
 
+# ---------------------------------------------------------------- get_delay advances its source once
+def delay_draws(tree, cls):
+    """<cls>.get_delay(self, delay): `if hasattr(delay, '__next__'): ... next(delay) ... elif callable(delay): ... delay() ... else: ...`
+    -> how often the generator / the callable is advanced in one call (every occurrence counts, also inside a validation)"""
+    fn = find(tree, cls, "get_delay")
+    if [a.arg for a in fn.args.args] != ["self", "delay"]:
+        raise Unsupported("%s.get_delay takes %s" % (cls, [a.arg for a in fn.args.args]))
+    top = [st for st in fn.body if isinstance(st, ast.If)]
+    if not top or ast.unparse(top[0].test) != "hasattr(delay, '__next__')" or len(top[0].orelse) != 1 or not isinstance(top[0].orelse[0], ast.If) \
+            or ast.unparse(top[0].orelse[0].test) != "callable(delay)":
+        raise Unsupported("%s.get_delay is not the generator / callable / constant chain" % cls)
+    gen_b, call_b, const_b = top[0].body, top[0].orelse[0].body, top[0].orelse[0].orelse
+
+    def count(stmts, what):
+        k = 0
+        for st in stmts:
+            for n in ast.walk(st):
+                if isinstance(n, ast.Call) and ast.unparse(n) == what:
+                    k += 1
+        return k
+    rest = [st for st in fn.body if st is not top[0]]
+    for what in ("next(delay)", "delay()"):
+        if count(rest, what) or count(const_b, what):
+            raise Unsupported("%s.get_delay advances the source outside its branch" % cls)
+    if count(gen_b, "delay()") or count(call_b, "next(delay)"):
+        raise Unsupported("%s.get_delay mixes the two kinds of source" % cls)
+    return "match k with DGen => %d | DCall => %d | DConst => 0 end" % (count(gen_b, "next(delay)"), count(call_b, "delay()"))
+
+
+for cls, f in (("Node", "nodes/node.py"), ("Edge", "edges/edge.py")):
+    frag("%s_get_delay_draws" % cls, f, lambda t, c=cls: delay_draws(t, c), "match k with DGen => 1 | DCall => 1 | DConst => 0 end",
+         kind="sig:(k : dsrc) : nat")
+
+
 def belt_gate(tree):
     return GTr().grants(find(tree, "BeltStore", "_do_reserve_put").body)
 
@@ -903,6 +937,7 @@ def main():
            "Definition ev_is (a b : pyev) : bool := Nat.eqb (ev_id a) (ev_id b).",
            "Fixpoint pyremove (x : pyev) (l : list pyev) : list pyev := match l with nil => nil | cons y r => if ev_is y x then r else cons y (pyremove x r) end.",
            "Record pyedge := { ed_id : nat; ed_can_put : bool }.",
+           "Inductive dsrc := DGen | DCall | DConst.   (* a delay parameter: generator instance, callable, constant *)",
            "Fixpoint pyindex (x : pyev) (l : list pyev) : nat := match l with nil => O | cons y r => if ev_is y x then O else S (pyindex x r) end.", ""]
     report = {}
     trees = {}
